@@ -640,9 +640,17 @@ func Guard(f func()) (panicked bool, msg, site string) {
 // the bubble's root after synctest.Wait()) and returns those that are still
 // alive, split into goroutines with a frame of the library under test and
 // others. Each entry is the innermost interesting function name.
+var leakBuf = make([]byte, 256<<10)
+
 func Leaked() (lib, other []string) {
-	buf := make([]byte, 4<<20)
-	buf = buf[:runtime.Stack(buf, true)]
+	// (one buffer per process, grown on demand: a fresh multi-megabyte
+	// allocation per run costs more than the run itself)
+	n := runtime.Stack(leakBuf, true)
+	for n == len(leakBuf) && len(leakBuf) < 64<<20 {
+		leakBuf = make([]byte, 2*len(leakBuf))
+		n = runtime.Stack(leakBuf, true)
+	}
+	buf := leakBuf[:n]
 	self := true
 	bubble := ""
 	for _, g := range strings.Split(string(buf), "\n\n") {
